@@ -1109,6 +1109,11 @@ class Frame(object):
             self.waterfall.header['source_name'] = self.source_name
             self.waterfall.header['rawdatafile'] = 'Synthetic'
 
+        # A frame holds floating-point intensities: a Waterfall inherited from an 8- or 16-bit file
+        # must not make blimpy cast them back to that integer type when writing
+        for header in (self.waterfall.header, self.waterfall.file_header):
+            header['nbits'] = 32
+
         # Keep the Waterfall's description of itself in step with the frame, also when the
         # Waterfall was inherited from a file or a parent frame (blimpy writes from these)
         container_attr = {
